@@ -1,4 +1,5 @@
 import TflModel.Model.Linear
+import TflModel.Model.PwlEval
 /-!
 # `assert_constraints` of every layer kind, as executable accept/reject functions
 
@@ -9,8 +10,14 @@ Each `accepts…` mirrors one `assert_constraints`: one conjunct per `tf.Assert`
 
 * Lattice: the kernel is a function on multi-indices over `sizes`; for `units > 1` the code appends
   the unit axis as a trailing non-monotone dimension (`withUnits`), which the model does literally.
-* Linear / categorical / PWL / KFL: one unit column; the real reductions run over all units
-  jointly, i.e. the layer accepts iff every unit column is accepted.
+* Linear / categorical / PWL / KFL: `accepts…` judges one unit column; `accepts…Layer` (section
+  "Layer level" at the end) is the call as the layer makes it, on the whole units-column kernel given
+  as the list of its columns `kernel[:, u]`, with the real reductions over the unit axis
+  (`reduce_min` / `reduce_max` over all entries, `reduce_all` over per-unit tests). Props/C12Units.lean
+  proves: the layer accepts iff every unit column is accepted.
+* PWL layer level: `PWLCalibration.assert_constraints` evaluates `keypoints_outputs()` for
+  `learned_interior` keypoints (since 57c7e1f) and `call(input_keypoints)` for fixed ones; both are
+  modelled literally (`pwlLayerOutputs`, on `Tfl.PwlEval`).
 -/
 namespace Tfl.Asserts
 open Tfl Tfl.Poset Tfl.Linear
@@ -230,5 +237,123 @@ def kflBounds (ls dims terms : Nat) (lo hi : Option Rat) (w : List (List (List R
 def acceptsKfl (ls dims terms : Nat) (monos : List Int) (lo hi : Option Rat)
     (w : List (List (List Rat))) (scale : List Rat) (eps : Rat) : Bool :=
   kflMono ls dims terms monos w scale eps && kflBounds ls dims terms lo hi w scale eps
+
+/-! ## Layer level: the whole units-column kernel
+
+A kernel of shape `(n, units)` is given as the list `cols` of its unit columns `cols[u] = kernel[:, u]`.
+A reduction over ALL entries (`tf.reduce_min(t)`) is a reduction over the concatenation of the
+columns' entries; `reduce_min(t, axis=0)` followed by `reduce_all` is one test per column. -/
+
+/-! `categorical_calibration_lib.assert_constraints(weights (num_buckets, units), …)` -/
+/-- `reduce_min(weights) >= output_min - eps` -/
+def catLoL (lo : Option Rat) (cols : List (List Rat)) (eps : Rat) : Bool :=
+  match lo with | none => true | some l => minGe cols.flatten (l - eps)
+/-- `reduce_max(weights) <= output_max + eps` -/
+def catHiL (hi : Option Rat) (cols : List (List Rat)) (eps : Rat) : Bool :=
+  match hi with | none => true | some h => maxLe cols.flatten (h + eps)
+/-- `reduce_max(left - right) <= eps`, `left/right = gather_nd(weights, [[i]…])` of shape `(pairs, units)` -/
+def catPairsL (cs : Pairs) (cols : List (List Rat)) (eps : Rat) : Bool :=
+  maxLe (cols.flatMap (fun w => cs.map (fun c => getV w c.1 - getV w c.2))) eps
+
+def acceptsCategoricalLayer (lo hi : Option Rat) (cs : Pairs) (cols : List (List Rat)) (eps : Rat) : Bool :=
+  catLoL lo cols eps && catHiL hi cols eps && catPairsL cs cols eps
+
+/-! `linear_lib.assert_constraints(weights (n, units), …)` -/
+/-- `reduce_min(weights * monotonicities) >= -eps` over all `(input, unit)` entries -/
+def linMonoL (monos : List Int) (cols : List (List Rat)) (eps : Rat) : Bool :=
+  if monos.any (· != 0) then
+    minGe (cols.flatMap (fun w => List.zipWith (fun x (m : Int) => x * (m : Rat)) w monos)) (-eps)
+  else true
+/-- per pair `reduce_min(weights[dom] - weights[weak]) >= -eps` over the units -/
+def linMdomL (md : Pairs) (cols : List (List Rat)) (eps : Rat) : Bool :=
+  md.all (fun c => minGe (cols.map (fun w => getV w c.1 - getV w c.2)) (-eps))
+def linRdomL (monos : List Int) (rd : Pairs) (los his : List (Option Rat)) (cols : List (List Rat)) (eps : Rat) : Bool :=
+  let sc := scalingsAll monos los his
+  rd.all (fun c => minGe (cols.map (fun w => getV sc c.1 * getV w c.1 - getV sc c.2 * getV w c.2)) (-eps))
+/-- `tf.norm(weights, axis=0)` per unit, `reduce_all` of the per-unit tests -/
+def linNormL (ord : NormOrd) (cols : List (List Rat)) (eps : Rat) : Bool :=
+  cols.all (fun w => normOk ord w eps)
+
+def acceptsLinearLayer (monos : List Int) (md rd : Pairs) (los his : List (Option Rat)) (ord : NormOrd)
+    (cols : List (List Rat)) (eps : Rat) : Bool :=
+  linMonoL monos cols eps && linMdomL md cols eps && linRdomL monos rd los his cols eps && linNormL ord cols eps
+
+/-- `PWLCalibration.call` for one unit at input `x`, as `assert_constraints` invokes it (no softmax
+row is needed: fixed keypoints): `call([x, zeros])` when imputing without a `missing_input_value`,
+`call(x)` otherwise (`missing_output` where `x == missing_input_value`) -/
+def pwlCallAt (cfg : PwlEval.Cfg) (kernel : List Rat) (mo x : Rat) : Rat :=
+  let result := PwlEval.calibrate cfg kernel [] x
+  if cfg.imputeMissing then
+    match cfg.missingInputValue with
+    | none => 0 * mo + (1 - 0) * result
+    | some v =>
+      let m : Rat := if x = v then 1 else 0
+      m * mo + (1 - m) * result
+  else result
+
+/-- the `outputs` column of unit `u` in `PWLCalibration.assert_constraints`:
+`keypoints_outputs()` for `learned_interior` keypoints, `call(input_keypoints)` for fixed ones -/
+def pwlLayerOutputs (cfg : PwlEval.Cfg) (kernel : List Rat) (mo : Rat) : List Rat :=
+  if cfg.learned then PwlEval.keypointsOutputs cfg kernel
+  else cfg.inputKeypoints.map (pwlCallAt cfg kernel mo)
+
+/-- `pwl_calibration_lib.assert_constraints(outputs (K, units), …)`: bounds and clamps test
+`reduce_min/max(outputs, axis=0)` per unit and `reduce_all`; monotonicity is ONE
+`reduce_min(diffs * monotonicity)` over all units -/
+def pwlMonoL (mono : Int) (outs : List (List Rat)) (eps : Rat) : Bool :=
+  if mono = 0 then true
+  else minGe (outs.flatMap (fun out => (diffs out).map (fun d => d * (mono : Rat)))) (-eps)
+
+def acceptsPwlOutputsLayer (mono : Int) (lo hi : Option Rat) (clampMin clampMax : Bool)
+    (outs : List (List Rat)) (eps : Rat) : Bool :=
+  outs.all (fun out => pwlLo lo clampMin out eps) && outs.all (fun out => pwlHi hi clampMax out eps) &&
+  pwlMonoL mono outs eps
+
+/-- `PWLCalibration.assert_constraints(eps)`: `cols[u]` the kernel column, `mouts[u]` the entry of
+`self.missing_output` of unit `u` (`0` when the layer does not impute);
+`assertMissing = impute_missing and missing_output_value is None` (the learned missing output is
+judged against the bounds, as a `(1, units)` outputs tensor) -/
+def acceptsPwlLayer (mono : Int) (lo hi : Option Rat) (clampMin clampMax : Bool) (assertMissing : Bool)
+    (cfg : PwlEval.Cfg) (cols : List (List Rat)) (mouts : List Rat) (eps : Rat) : Bool :=
+  acceptsPwlOutputsLayer mono lo hi clampMin clampMax
+    ((List.range cols.length).map (fun u => pwlLayerOutputs cfg (cols.getD u []) (getR mouts u))) eps &&
+  (if assertMissing then
+     acceptsPwlOutputsLayer 0 lo hi false false ((List.range cols.length).map (fun u => [getR mouts u])) eps
+   else true)
+
+/-- `kronecker_factored_lattice_lib.assert_constraints`: `us[u] = (weights[0, :, u, :, :], scale[u, :])`.
+Monotonicity: per dimension and adjacent keypoint pair ONE `reduce_min` over units × terms.
+Both bounds: one assertion per (term, unit) on `max_output_values`; the scale test counts the
+offending entries of the whole `scale`. One bound: the negative entries of the whole kernel and the
+wrongly signed entries of the whole `scale` are counted. -/
+def kflMonoL (ls dims terms : Nat) (monos : List Int) (us : List (List (List (List Rat)) × List Rat))
+    (eps : Rat) : Bool :=
+  (List.range (min dims monos.length)).all fun d =>
+    if monos.getD d 0 ≠ 0 then
+      (List.range (ls - 1)).all fun j =>
+        minGe (us.flatMap (fun u => (List.range terms).map (fun t =>
+          sign (getV u.2 t) * get3 u.1 (j + 1) d t - sign (getV u.2 t) * get3 u.1 j d t))) (-eps)
+    else true
+
+def kflBoundsL (ls dims terms : Nat) (lo hi : Option Rat) (us : List (List (List (List Rat)) × List Rat))
+    (eps : Rat) : Bool :=
+  let noNeg : Bool := us.all fun u => (List.range ls).all fun k => (List.range dims).all fun d =>
+    (List.range terms).all fun t => !decide (get3 u.1 k d t < 0)
+  let scaleAll : List Rat := us.flatMap (·.2)
+  match lo, hi with
+  | none, none => true
+  | some l, some h =>
+    ((List.range terms).all fun t => us.all fun u =>
+      decide (-eps ≤ 1 - rprod ((List.range dims).map (fun d =>
+        match (List.range ls).map (fun k => Rat.abs (get3 u.1 k d t)) with
+        | [] => 0
+        | x :: xs => rmax x xs)))) &&
+    scaleAll.all (fun s => !decide (s < -((h - l) / 2)) && !decide ((h - l) / 2 < s))
+  | some _, none => noNeg && scaleAll.all (fun s => !decide (s < 0))
+  | none, some _ => noNeg && scaleAll.all (fun s => !decide (0 < s))
+
+def acceptsKflLayer (ls dims terms : Nat) (monos : List Int) (lo hi : Option Rat)
+    (us : List (List (List (List Rat)) × List Rat)) (eps : Rat) : Bool :=
+  kflMonoL ls dims terms monos us eps && kflBoundsL ls dims terms lo hi us eps
 
 end Tfl.Asserts
